@@ -1336,6 +1336,101 @@ func c09Merge(w *World, r *Result, rule string) {
 	}
 	c09Accumulate(w, r, rule)
 	c09AddIfAbsent(w, r, rule)
+	c09FilterFlag(w, r, rule)
+}
+
+// c09FilterFlag: where a loop keeps or drops each element of a list depending on a flag
+// (append(kept, element) under if !flag), the flag is decided for that element alone: a
+// flag that is carried over from the previous iteration (declared outside the loop and
+// never reset) drops every element after the first hit.
+func c09FilterFlag(w *World, r *Result, rule string) {
+	for _, fn := range w.Funcs("parser") {
+		loops := naturalLoops(fn)
+		perFn := 0
+		for _, b := range fn.Blocks {
+			hdr := loops[b]
+			if hdr == nil {
+				continue
+			}
+			for _, ins := range b.Instrs {
+				ap, ok := ins.(*ssa.Call)
+				if !ok {
+					continue
+				}
+				bi, ok := ap.Call.Value.(*ssa.Builtin)
+				if !ok || bi.Name() != "append" || len(ap.Call.Args) != 2 {
+					continue
+				}
+				// the appended value is the element the loop ranges over
+				isElem := false
+				for _, e := range variadicElems(ap.Call.Args[1]) {
+					if u, ok := e.(*ssa.UnOp); ok {
+						if ia, ok := u.X.(*ssa.IndexAddr); ok {
+							if ph, ok := ia.Index.(*ssa.BinOp); ok {
+								if p, ok := ph.X.(*ssa.Phi); ok && strings.TrimSpace(p.Comment) == "rangeindex" && p.Block() == hdr {
+									isElem = true
+								}
+							}
+						}
+					}
+				}
+				if !isElem {
+					continue
+				}
+				// the flag guarding the append: a plain bool value tested by the dominating branch
+				var flag ssa.Value
+				for d := b; d != nil && d != hdr; d = d.Idom() {
+					p := d.Idom()
+					if p == nil {
+						break
+					}
+					c, _ := condOf(p)
+					if c == nil {
+						continue
+					}
+					if _, isCall := c.(*ssa.Call); isCall {
+						continue
+					}
+					if _, isBin := c.(*ssa.BinOp); isBin {
+						continue
+					}
+					if (p.Succs[0].Dominates(b) && len(p.Succs[0].Preds) == 1) || (p.Succs[1].Dominates(b) && len(p.Succs[1].Preds) == 1) {
+						flag = c
+						break
+					}
+				}
+				if flag == nil {
+					continue
+				}
+				perFn++
+				key := fmt.Sprintf("filterflag:%s#%d", FuncName(fn), perFn)
+				carried := false
+				seen := map[ssa.Value]bool{}
+				var walk func(v ssa.Value, d int)
+				walk = func(v ssa.Value, d int) {
+					if d > 6 || seen[v] {
+						return
+					}
+					seen[v] = true
+					if ph, ok := v.(*ssa.Phi); ok {
+						if ph.Block() == hdr {
+							carried = true
+							return
+						}
+						for _, e := range ph.Edges {
+							walk(e, d+1)
+						}
+					}
+				}
+				walk(flag, 0)
+				if carried {
+					r.Bad(rule, key, w.Pos(ap.Pos()), "whether an element is kept depends on a flag carried over from the previous iteration (it is not reset per element): after the first dropped duplicate, the following statements of imported files are dropped as well")
+				} else {
+					r.Ok(rule, key, w.Pos(ap.Pos()), "the keep/drop flag is decided anew for every element")
+				}
+			}
+		}
+	}
 }
 
 // c09AddIfAbsent: where an element that a membership test found missing is appended, the
